@@ -129,7 +129,7 @@ def run(ctx):
             d = origin(gi, t["discr"])
             if mentions(d, "chain_id") and (mentions(d, "ne") or mentions(d, "eq")):
                 chain = b
-    R.ob(chain is not None and bool(rec) and all(gi.dominates(chain, c.bb) for c in rec), "DOM-before", gi.where(), "DOM-before|chain-id<recover",
+    R.ob(chain is not None and bool(rec) and all(gi.sdominates(chain, c.bb) for c in rec), "DOM-before", gi.where(), "DOM-before|chain-id<recover",
          "the chain-id filter does not dominate signature recovery", sample={"rule": "DOM-before", "a": "chain id check", "b": "recover_address_from_prehash"})
     if chain is not None:
         d = origin(gi, gi.term(chain)["discr"])
@@ -138,7 +138,7 @@ def run(ctx):
     R.ob(bool(dec) and ER.err_propagated(gi, dec[0]), "ERR-prop", gi.where(), "ERR-prop|rlp-decode", "an undecodable transaction is not refused with Err")
     gcall = [c for c in fn.calls() if (c.method or "") == "get_info_from_raw_tx" and not fn.is_cleanup(c.bb)]
     wr = [c for c in fn.calls() if (c.method or "") in ("write_fn", "add_tx_to_block") and not fn.is_cleanup(c.bb)]
-    R.ob(bool(gcall) and all(fn.dominates(gcall[0].bb, w.bb) for w in wr) and ER.err_propagated(fn, gcall[0]), "DOM-before", fn.where(),
+    R.ob(bool(gcall) and all(fn.sdominates(gcall[0].bb, w.bb) for w in wr) and ER.err_propagated(fn, gcall[0]), "DOM-before", fn.where(),
          "DOM-before|decode<write", "decoding/filtering does not dominate every write in add_raw_tx_to_block")
     # WIRE: drained transaction runs with its own stored fields
     dl = ER.drain_loop(F)
